@@ -33,6 +33,12 @@ Theorem C19_transparent : forall client p jit script n1 s1 n2 s2,
   fst (traced_run client p jit n1 s1 script) = fst (traced_run client p jit n2 s2 script).
 Proof. exact tracing_transparent. Qed.
 
+(* ... and the exception (or response) still reaches the caller unchanged: it is the outcome of the last attempt the tracers saw *)
+Theorem C19_caller_gets_last_traced : forall client p jit tracers supplied script a,
+  r_final (fst (traced_run client p jit tracers supplied script)) = Some a ->
+  nth_error (firstn (r_sends (send_with client p jit script)) script) (r_sends (send_with client p jit script) - 1) = Some a.
+Proof. exact caller_gets_last_traced. Qed.
+
 Example C19_ex :
   let s := {| s_backoff := Periodic 2 0; s_codes := None; s_excs := Some [9%nat] |} in
   let a k t := {| a_kind := k; a_tag := t |} in
